@@ -65,6 +65,21 @@ class C12(Prop):
                 w, h = Fraction(rng.randint(1, 6)), Fraction(rng.randint(1, 20))
                 ring = [[a, f], [a + w, f + h], [a + w, f], [a, f + h], [a, f]]
                 g["coordinates"] = [ring] if g["type"] == "Polygon" else [[ring]]
+        bow = [g for g in (g1, g2) if g["type"] in ("Polygon", "MultiPolygon") and len((g["coordinates"][0] if g["type"] == "Polygon" else g["coordinates"][0][0])) == 5
+               and (g["coordinates"][0] if g["type"] == "Polygon" else g["coordinates"][0][0])[1][0] == (g["coordinates"][0] if g["type"] == "Polygon" else g["coordinates"][0][0])[2][0]]
+        if bow and rng.random() < 0.6:
+            # the partner sits in one half of the bowtie's extent only: an extent read off a "repaired" outline would miss it
+            b = bow[0]
+            ring = b["coordinates"][0] if b["type"] == "Polygon" else b["coordinates"][0][0]
+            a0, w0 = ring[0][0], ring[1][0] - ring[0][0]
+            f0, h0 = ring[0][1], ring[1][1] - ring[0][1]
+            half = rng.choice([0, 1])
+            other = {"type": "BoundingBox", "coordinates": [a0 + half * w0 * Fraction(3, 4), f0 + half * h0 * Fraction(3, 4),
+                                                           a0 + w0 * Fraction(1, 4) + half * w0 * Fraction(3, 4), f0 + h0 * Fraction(1, 4) + half * h0 * Fraction(3, 4)]}
+            if b is g1:
+                g2 = other
+            else:
+                g1 = other
         which = rng.choice(["temporal", "frequency"])
         mode = rng.choice(["none", "abs", "rel", "none", "both"])
         a = r = None
@@ -76,6 +91,11 @@ class C12(Prop):
 
     def _clip_case(self, rng):
         g = G.rgeom(rng)
+        if g["type"] in ("Polygon", "MultiPolygon") and rng.random() < 0.4:
+            a, f = Fraction(rng.randint(0, 12)), Fraction(rng.randint(0, 40))
+            w, h = Fraction(rng.randint(1, 6)), Fraction(rng.randint(1, 20))
+            ring = [[a, f], [a + w, f + h], [a + w, f], [a, f + h], [a, f]]
+            g["coordinates"] = [ring] if g["type"] == "Polygon" else [[ring]]
         s, _, e, _ = G.bounds_exact(g)
         cs = rng.choice([s, e, Fraction(rng.randint(0, 64), 4), s - Fraction(1, 4), e - Fraction(1, 4)])
         cs = max(cs, Fraction(0))
